@@ -96,6 +96,16 @@ func Gen(seed uint64, profile string) *Scenario {
 	}
 	genWorld(simkit.NewRNG(seed, "bw/world"), sc, &k)
 	genAdds(simkit.NewRNG(seed, "bw/adds"), sc, &k)
+	if profile == "faultbase" && len(sc.Regs) > 0 {
+		// the same registry package referenced twice in one build (first path and cached path),
+		// so that a fault on the first reference is followed by a second reference
+		rp := sc.Regs[0]
+		sc.Adds = append(sc.Adds, Add{Kind: "registry", Addr: rp.Addr + "//m1", Constr: "", Finder: "F1"}, Add{Kind: "registry", Addr: rp.Addr + "//m2", Constr: "", Finder: "F1"})
+		if len(sc.Pkgs) > 0 && len(sc.Pkgs[0].Mods) > 0 {
+			m := &sc.Pkgs[0].Mods[0]
+			m.Deps = append(m.Deps, Dep{Kind: "registry", Addr: rp.Addr, Constr: "", Finder: "F1"}, Dep{Kind: "registry", Addr: rp.Addr + "//sub", Constr: "", Finder: "F1"})
+		}
+	}
 	vr := simkit.NewRNG(seed, "bw/variants")
 	for v := 0; v < nvar; v++ {
 		va := Variant{SchedSeed: vr.U64(), Shape: simkit.Pick(vr, []string{"random", "random", "rr", "rtc"}), PermSalt: 0}
